@@ -2,12 +2,12 @@ SPECIFICATION Spec
 CONSTANTS
   NProms = {1}
   LayoutIds = {2}
-  Eols = {"lf", "crlf"}
-  Priors = {"none", "expired"}
+  Eols = {"lf"}
+  Priors = {"none"}
   Rules = {1, 2, 3, 4, 5, 6, 7, 8, 9, 10, 11}
   Scopes = {"rule", "file"}
-  OnlyBasePairs = TRUE
-  Slim = FALSE
+  OnlyBasePairs = FALSE
+  Slim = TRUE
   AllPlacements = FALSE
 INVARIANTS EmitCase
 CHECK_DEADLOCK FALSE
